@@ -1,6 +1,7 @@
 import IdspModel
 import IdspModel.DriverF
 import IdspModel.Model.BiquadF
+import IdspModel.Model.Filter
 /-!
   Line-protocol driver.  One request per line:
 
@@ -160,6 +161,20 @@ def evalOp (st : DState) (m : Mode) (op : String) (a : List Tok) : Option (DStat
     let i ← optOf inp
     pure' (rshow (fun (s, py, pf) => ints [s.x, s.ff, s.f, s.y, py, pf])
       (RPLL.update m ⟨dt2, x, ff, f, y⟩ i sf sph))
+  -- filter.rs glue, Biquad helpers, AccuOsc
+  | "nyquist", [.int st, .int x] => let (s', y) := nyquistUpdate st x; pure' (ints [s', y])
+  | "repeat_lp1", [.list ss, .int x, .int k] =>
+    pure' (rshow (fun (ss', y) => sp [showList ss', toString y]) (repeatLp1Update m ss x k))
+  | "cascade_lp1_nyq", [.int s, .int n, .int x, .int k] =>
+    pure' (rshow (fun (s', n', y) => ints [s', n', y]) (cascadeLp1NyqUpdate m s n x k))
+  | "bq_fgain", [.int w, .list [b0, b1, b2, a1, a2, u, mn, mx]] =>
+    pure' (rshow toString (biquadForwardGain m w.toNat ⟨b0, b1, b2, a1, a2, u, mn, mx⟩))
+  | "bq_inoff", [.int w, .int q, .list [b0, b1, b2, a1, a2, u, mn, mx]] =>
+    pure' (rshow toString (biquadInputOffset m w.toNat q.toNat ⟨b0, b1, b2, a1, a2, u, mn, mx⟩))
+  | "bq_setinoff", [.int w, .int q, .list [b0, b1, b2, a1, a2, u, mn, mx], .int off] =>
+    pure' (rshow toString (biquadSetInputOffset m w.toNat q.toNat ⟨b0, b1, b2, a1, a2, u, mn, mx⟩ off))
+  | "accuosc", [.int rate, .int sw, .int ph] =>
+    pure' (rshow (fun (a, b, c, d) => ints [a, b, c, d]) (accuOscNext m rate sw ph))
   -- sweep
   | "sweep", [.int rate, .int state] => pure' (rshow (fun (s, it) => ints [s, it]) (sweepNext m rate state))
   -- half-band filters (stateful: objects are named by an integer id)
